@@ -65,16 +65,20 @@ type Event struct {
 }
 
 type Config struct {
-	Chooser       Chooser
-	MaxSteps      int            // scheduler steps per run; exceeding it gives VCapped (never a violation)
-	LoneLimit     int            // consecutive lone poll intervals that make a livelock verdict
-	MapBase       string         // base order handed to the chooser by MapKeys: asc (default) | desc | rot
-	YieldOnMake   bool           // treat channel creation as a preemption point
-	YieldOnMap    bool           // treat the start of a range-over-map loop as a preemption point
-	ClockAdvance  bool           // offer "advance the clock" as a scheduling option while goroutines are runnable
-	KeepTrace     bool           // keep the full event list (replays, samples)
-	WallLimit     time.Duration  // real-time watchdog for one run
-	OnSettled     func(g string) // called at a settled point (see settle detection), on the scheduler's stack
+	Chooser      Chooser
+	MaxSteps     int            // scheduler steps per run; exceeding it gives VCapped (never a violation)
+	LoneLimit    int            // consecutive lone poll intervals that make a livelock verdict
+	MapBase      string         // base order handed to the chooser by MapKeys: asc (default) | desc | rot
+	YieldOnMake  bool           // treat channel creation as a preemption point
+	YieldOnMap   bool           // treat the start of a range-over-map loop as a preemption point
+	ClockAdvance bool           // offer "advance the clock" as a scheduling option while goroutines are runnable
+	KeepTrace    bool           // keep the full event list (replays, samples)
+	WallLimit    time.Duration  // real-time watchdog for one run
+	OnSettled    func(g string) // called at a settled point (see settle detection), on the scheduler's stack
+	// OnQuiescent is called when no goroutine can run and everything pending on the clock is an
+	// environment sleep: the system under test has nothing scheduled and will not move before the
+	// environment does (event-driven code settles like this; polling code settles through OnSettled)
+	OnQuiescent   func()
 	OnForeignFire func(seq uint64, polled bool)
 }
 
@@ -82,7 +86,7 @@ type Stats struct {
 	Steps, Switches, ClockJumps, VoluntaryClock, ForeignFired int
 	MapDecisions, MapNonSorted                                int
 	SelectMulti, MutexContended, ChanSendBlocked              int
-	Settled, TimersFired, BusyAdvance, SortYields             int
+	Settled, TimersFired, BusyAdvance, SortYields, Quiescent  int
 }
 
 type timerEv struct {
@@ -395,6 +399,27 @@ func (s *Sim) pendingWakeups() int {
 // happens: the interval since the previous forced advance is classified.
 func (s *Sim) forcedAdvance(pending int) {
 	ran := s.ran
+	if s.cfg.OnQuiescent != nil {
+		envOnly := false
+		for _, g := range s.live {
+			if g.state == gSleeping {
+				if !g.envSleep {
+					envOnly = false
+					break
+				}
+				envOnly = true
+			}
+		}
+		for _, t := range s.timers {
+			if !t.dead {
+				envOnly = false
+			}
+		}
+		if envOnly {
+			s.Stats.Quiescent++
+			s.cfg.OnQuiescent()
+		}
+	}
 	// Closed interval: every pending wake-up (sleeper or timer) belongs to a goroutine that ran in
 	// this interval and is not an environment sleep: the system is driven solely by goroutines
 	// that wake up on the clock, look around and go back to waiting, and nobody else can ever move.
